@@ -26,3 +26,25 @@ def tag_overtaken(rec, violations, rules):
         if violation["rule"] in rules:
             violation["key"] = "%s (%s): %s" % (OVERTAKEN_KEY, ", ".join(actors),
                                                violation["msg"])
+
+
+DISPLACED_CLOSE_KEY = "clean-up awaited during a forceful close that a privileged child failure displaced"
+PRIVILEGED = ("SystemExit", "KeyboardInterrupt", "AssertionError", "ProgAssertion")
+
+
+def displaced_close(rec):
+    """Actors that were closed forcefully while an inner scope of theirs had a privileged child
+    failure pending: the scope left with that failure instead of the GeneratorExit (scope! with
+    a privileged meta), the actor's clean-up handler took it for an ordinary exception and
+    awaited (cleanup+ with that meta), and the close died with RuntimeError - all within one
+    activation, which belongs to whoever closes (known finding F38)."""
+    hit = set()
+    last_cleanup = {}
+    for ev in rec.trace:
+        actor, kind = ev[3], ev[4]
+        if kind == "cleanup+" and ev[5] and ev[5][0] in PRIVILEGED:
+            last_cleanup[actor] = ev[1]
+        elif kind == "exc" and ev[5] and ev[5][0] == "RuntimeError" \
+                and last_cleanup.get(actor) == ev[1]:
+            hit.add(actor)
+    return sorted(hit)
